@@ -5,8 +5,8 @@ from concurrent.futures import ThreadPoolExecutor
 from . import runner, suites, playback
 
 VERIF = runner.VERIF
-EVID = os.path.join(VERIF, "evidence")
-REPLAY = os.path.join(VERIF, "replay")
+EVID = os.environ.get("VERIF_EVIDENCE_DIR", os.path.join(VERIF, "evidence"))
+REPLAY = os.environ.get("VERIF_REPLAY_DIR", os.path.join(VERIF, "replay"))
 KNOWN = os.path.join(VERIF, "known_findings.json")
 
 TAG_RE = re.compile(r"^\[(C\d\d)\]")
